@@ -245,7 +245,7 @@ def run(ctx):
                 "P in {1,2,3} with default / explicit / empty-rank partitions; histories of 10-20 operations with poisoning; "
                 "non-trivial = hierarchy in the domain of the theorems and non-zero cycle output")
     per_P = {1: ctx.scale(220, 2600), 2: ctx.scale(140, 1700), 3: ctx.scale(140, 1700)}
-    ctx.k_budget = {"cyc": ctx.scale(14, 160), "stg": ctx.scale(54, 640)}
+    k_total = {"cyc": ctx.scale(15, 160), "stg": ctx.scale(54, 640)}
     if ctx.replay:
         cases = [replay_case(l) for l in ctx.replay]
     else:
@@ -259,6 +259,7 @@ def run(ctx):
         sub = [c for c in cases if c["P"] == P]
         if not sub: continue
         t0 = time.time()
+        ctx.k_budget = {key: v // 3 for key, v in k_total.items()}      # the model comparisons are spread over the process counts
         impl, crashed = fw.run_impl_lines(ctx, "drv_cycle", [c["line"] for c in sub], nprocs=P, name="c09_p%d" % P, timeout=1500)
         t1 = time.time()
         for c in sub: judge(ctx, c, impl.get(c["cid"]), model_lines)
